@@ -45,6 +45,37 @@ theorem C12_main_equiv (P : Prims) (rnd : Rand) (w : World) (prog : Str) (hprog 
     main P rnd w (prog :: render st req) = main P rnd w (prog :: render st' req) := by
   unfold main; rw [C12_parse_equiv prog hprog st st' req h]
 
+/-- **C12 (order, decrypt).** The rendered request consists of the pieces `decryptPieces st …` = [input file, `-t NAME`,
+    `-o FILE`?, `-k KEYRING`?, `--env-pass`?] (an absent optional piece is the empty stretch).  EVERY permutation `ps'` of these
+    pieces — in particular any swap of two adjacent options, and the input file at any position — parses to the same request.
+    (`render` is the identity permutation: `render_decrypt_pieces`.) -/
+theorem C12_parse_order_decrypt (prog : Str) (hprog : valOk prog) (st : Style) (inf : Option Str) (to : Str)
+    (outf kr : Option Str) (e : Bool) (h : Renderable (.decrypt inf to outf kr e))
+    (ps' : List Piece) (hperm : ps'.Perm (decryptPieces st inf to outf kr e)) :
+    parseArgv (prog :: word st "decrypt" "dec" :: (ps'.map (·.args)).flatten) = .decrypt inf to outf kr e ∧
+    parseArgv (prog :: word st "decrypt" "dec" :: (ps'.map (·.args)).flatten) =
+      parseArgv (prog :: render st (.decrypt inf to outf kr e)) := by
+  have h1 := parseArgv_anyOrder_decrypt prog hprog st inf to outf kr e h ps' hperm
+  exact ⟨h1, by rw [h1, C12_parse_render prog hprog st _ h]⟩
+
+/-- **C12 (order, encrypt).** -/
+theorem C12_parse_order_encrypt (prog : Str) (hprog : valOk prog) (st : Style) (inf : Option Str) (to fr : Str)
+    (outf kr : Option Str) (e : Bool) (h : Renderable (.encrypt inf to fr outf kr e))
+    (ps' : List Piece) (hperm : ps'.Perm (encryptPieces st inf to fr outf kr e)) :
+    parseArgv (prog :: word st "encrypt" "enc" :: (ps'.map (·.args)).flatten) = .encrypt inf to fr outf kr e ∧
+    parseArgv (prog :: word st "encrypt" "enc" :: (ps'.map (·.args)).flatten) =
+      parseArgv (prog :: render st (.encrypt inf to fr outf kr e)) := by
+  have h1 := parseArgv_anyOrder_encrypt prog hprog st inf to fr outf kr e h ps' hperm
+  exact ⟨h1, by rw [h1, C12_parse_render prog hprog st _ h]⟩
+
+/-- **C12 (order, reversed).** A concrete rearrangement that moves every element: the options in the reverse of the USAGE order
+    with the input file after them (`renderRev`). -/
+theorem C12_parse_order_rev (prog : Str) (hprog : valOk prog) (st st' : Style) (req : Request) (h : Renderable req) :
+    parseArgv (prog :: renderRev st req) = req ∧
+    parseArgv (prog :: renderRev st req) = parseArgv (prog :: render st' req) := by
+  have h1 := parseArgv_renderRev prog hprog st req h
+  exact ⟨h1, by rw [h1, C12_parse_render prog hprog st' req h]⟩
+
 /-! ## (2) the outcome is independent of the wiring -/
 
 theorem sameFile_none (outf : Option Str) : sameFile none outf = false := by cases outf <;> rfl
@@ -360,16 +391,6 @@ theorem krText_parse : Keyring.parse krText = some ks :=
 theorem world_file_kr (input stdin : Bytes) (env : List (Str × Str)) : (world input stdin env).file (str "kr") = some (utf8 krText) := rfl
 theorem world_file_in (input stdin : Bytes) (env : List (Str × Str)) : (world input stdin env).file (str "in") = some input := rfl
 
-theorem openKeyring_of {w : World} {p text : Str} {ks : List Keyring.Key} (hf : w.file p = some (utf8 text))
-    (hp : Keyring.parse text = some ks) : openKeyring w (some p) = .ok ks := by
-  simp only [openKeyring, hf, utf8Decode_utf8, hp]
-
-theorem unlockNamed_of {w : World} {ks : List Keyring.Key} {name : Str} {key : Keyring.Key} {locked : Str} {pk pw sk : Bytes}
-    (hg : Keyring.getKey ks name = some key) (hd : Keyring.decodePk key.pk = .ok pk) (hs : key.sk = some locked)
-    (hp : askPass w true = .ok pw) (hu : Keyring.unlockPrivateKey locked pw = .ok sk) :
-    unlockNamed w ks name true = .ok (sk, pk) := by
-  simp only [unlockNamed, hg, hd, hs, hp, hu]
-
 theorem world_openKeyring (input stdin : Bytes) (env : List (Str × Str)) :
     openKeyring (world input stdin env) (some (str "kr")) = .ok ks :=
   openKeyring_of (world_file_kr input stdin env) krText_parse
@@ -470,6 +491,25 @@ example (st : Style) : parseArgv (str "kestrel" :: render st (.keyGen (some (str
   C12_parse_render _ ⟨by decide, by decide⟩ st _ (fun v hv => by cases hv; exact ⟨by decide, by decide⟩)
 example (st : Style) : parseArgv (str "kestrel" :: render st (.changePass KR.aliceSk false)) = .changePass KR.aliceSk false :=
   C12_parse_render _ ⟨by decide, by decide⟩ st _ (show isArg KR.aliceSk = false by decide)
+
+example : renderRev ⟨false, false, false⟩ exReq2 =
+    [str "encrypt", str "-k", str "", str "-o", str "--", str "-f", str "a=b=c", str "-t", str "-bob"] := by decide
+example : renderRev ⟨false, true, true⟩ exReq = [str "dec", str "--env-pass", str "-o=out=1", str "-t=alice", str "in"] := by decide
+example (st st' : Style) := C12_parse_order_rev (str "kestrel") ⟨by decide, by decide⟩ st st' exReq exReq_renderable
+example : parseArgv (str "kestrel" :: renderRev ⟨false, true, true⟩ exReq) = exReq := by decide
+
+/-- two adjacent options swapped (`-o` before `-t`), the file in the middle -/
+example (st : Style) : parseArgv (str "kestrel" :: word st "decrypt" "dec" ::
+    (([pieceOptional st optO 1 (some (str "out=1")), pieceFile (some (str "in")), pieceOpt st optT 0 (str "alice"),
+       pieceOptional st optK 2 none, pieceFlag st optE 3 true] : List Piece).map (·.args)).flatten) = exReq :=
+  (C12_parse_order_decrypt (str "kestrel") ⟨by decide, by decide⟩ st _ _ _ _ _ exReq_renderable _
+    (by
+      unfold decryptPieces
+      exact (List.Perm.swap _ _ _).trans (List.Perm.cons _ (List.Perm.swap _ _ _)))).1
+example : (([pieceOptional ⟨false, false, false⟩ optO 1 (some (str "out=1")), pieceFile (some (str "in")),
+      pieceOpt ⟨false, false, false⟩ optT 0 (str "alice"), pieceOptional ⟨false, false, false⟩ optK 2 none,
+      pieceFlag ⟨false, false, false⟩ optE 3 true] : List Piece).map (·.args)).flatten =
+    [str "-o", str "out=1", str "in", str "-t", str "alice", str "--env-pass"] := by decide
 
 /-- the side conditions are needed: a value `-h` turns the command into a help request; an option-like input file name is
     taken for an option -/
